@@ -166,6 +166,7 @@ def _run_real(root, dumper, inp, mode, entry):
 def mode_sx(mode):
     if mode[0] == "none": return "none"
     if mode[0] == "packrat": return "(packrat %s)" % ("N" if mode[1] is None else mode[1])
+    if mode[0] == "lr": return "(lr %s)" % ("N" if mode[1] is None else mode[1])
     raise ValueError(mode)
 
 
